@@ -496,7 +496,129 @@ def ev_history(case):
     return {"fails": fails, "n": nev, "tags": tags, "slack": slack, "sample": {"config": cfg, "mode": mode, "set": case["set"], "histories": nseq, "calls": nev, "distinguishable": visible}}
 
 
-EVALUATORS = {"inverter": ev_inverter, "history": ev_history}
+# ------------------------------------------------------------------ evaluator: several inverter objects, interleaved
+# how an object is built: "default" = no kernel / mean argument at all; "classes" = the documented defaults passed explicitly as
+# classes; "instances" = the caller's own instances (kernel / mean of the spec); "cp-classes" = a ChangePoint built from kernel
+# classes + a mean class.  The caller never hands the same instance to two objects.
+STYLES = ["default", "classes", "instances", "cp-classes"]
+STYLE_SPEC = {"default": ("SE", "C"), "classes": ("SE", "C"), "cp-classes": (["CP", 0, "SE", "SE"], "L")}
+BUILD_ORDERS = ["all-first", "at-first-use"]
+
+
+def style_spec(obj):
+    """(kernel spec, mean spec) of the model an object of this style is"""
+    return STYLE_SPEC.get(obj["style"]) or (obj["kernel"], obj["mean"])
+
+
+def build_styled(obj):
+    from checks import c11
+    from inference.gp import ChangePoint, GpLinearInverter, SquaredExponential
+    from inference.gp.mean import ConstantMean, LinearMean
+
+    prob = obj["problem"]
+    kw = dict(y=np.array(prob["y"], dtype=float), y_err=np.array(prob["y_err"], dtype=float), model_matrix=np.array(prob["A"], dtype=float),
+              parameter_spatial_positions=np.array(prob["X"], dtype=float))
+    st = obj["style"]
+    if st == "classes":
+        kw.update(prior_covariance_function=SquaredExponential, prior_mean_function=ConstantMean)
+    elif st == "instances":
+        kw.update(prior_covariance_function=c11.lib_kernel(obj["kernel"]), prior_mean_function=lib_mean(obj["mean"]))
+    elif st == "cp-classes":
+        kw.update(prior_covariance_function=ChangePoint(kernels=[SquaredExponential, SquaredExponential], axis=0), prior_mean_function=LinearMean)
+    elif st != "default":
+        raise HarnessError(st)
+    with lib("construct-" + st):
+        return GpLinearInverter(**kw)
+
+
+def ev_interleave(case):
+    """Two or three inverter objects built from different problems; every sequence of <= max_len calls (object, method), the
+    hyper-parameter vector alternating with the position in the sequence; objects built all first or each at its first use.
+    Every result must be what that object gives ALONE (nothing else built or called since it was built)."""
+    objs = case["objects"]
+    nob = len(objs)
+    fails, tags, slack = [], set(), {}
+    seen = set()
+    nev = 0
+    desc = " | ".join("%s:%dx%d,d=%d" % (o["style"], o["problem"]["shape"][0], o["problem"]["shape"][1], o["problem"]["d"]) for o in objs)
+
+    def add(key, what, **ctx):
+        if key not in seen:
+            seen.add(key)
+            fails.append(fail(key, what, **ctx))
+
+    thetas = [[np.array(t, dtype=float) for t in o["thetas"]] for o in objs]
+    # the object alone
+    alone = {}
+    for oi, o in enumerate(objs):
+        for mi, method in enumerate(METHODS):
+            for ti in range(len(thetas[oi])):
+                inv = build_styled(o)
+                if inv.n_hyperpars != len(thetas[oi][ti]):
+                    raise HarnessError("hyper-parameter layout: model has %d, reference %d" % (inv.n_hyperpars, len(thetas[oi][ti])))
+                with lib(method):
+                    res = getattr(inv, method)(thetas[oi][ti].copy())
+                nev += 1
+                alone[(oi, mi, ti)] = [(nm, a.copy()) for nm, a in result_parts(method, res)]
+        # "no argument" and "the documented default classes / instances of them" are the same model
+        if o["style"] in ("default", "classes"):
+            twin = dict(o, style="instances", kernel="SE", mean="C")
+            for mi, method in enumerate(METHODS):
+                inv = build_styled(twin)
+                with lib(method):
+                    res = getattr(inv, method)(thetas[oi][0].copy())
+                nev += 1
+                for (nm, got), (_, want) in zip(alone[(oi, mi, 0)], result_parts(method, res)):
+                    r = 0.0 if same_bits(got, want) else rel_difference(got, want)
+                    if r > HIST_RTOL:
+                        add("interleave/%s/%s/differs-from-explicit-SquaredExponential-ConstantMean" % (o["style"], method),
+                            "an inverter built with style '%s' gives a %s that differs from one given SquaredExponential() and ConstantMean() instances: relative difference %.3g" % (o["style"], nm, r),
+                            objects=desc, observed=got.tolist(), expected=np.asarray(want).tolist())
+    # the objects must be distinguishable (a mix-up of two objects would otherwise be invisible)
+    for a, b in itertools.combinations(range(nob), 2):
+        if all(x[1].shape == y[1].shape and np.allclose(x[1], y[1], rtol=1e-6, atol=0) for mi in range(len(METHODS)) for x, y in zip(alone[(a, mi, 0)], alone[(b, mi, 0)])):
+            raise HarnessError("objects %d and %d of this block give the same results" % (a, b))
+
+    ops = [(oi, mi) for oi in range(nob) for mi in range(len(METHODS))]
+    nseq = 0
+    for order in case["build_orders"]:
+        for length in range(1, int(case["max_len"]) + 1):
+            for seq in itertools.product(ops, repeat=length):
+                if order == "at-first-use" and len({oi for oi, _ in seq}) < 2:
+                    continue  # one object only: the same as "all-first" without the bystanders; covered by the history evaluator
+                nseq += 1
+                built = [build_styled(o) for o in objs] if order == "all-first" else [None] * nob
+                for pos, (oi, mi) in enumerate(seq):
+                    if built[oi] is None:
+                        built[oi] = build_styled(objs[oi])
+                    ti = pos % len(thetas[oi])
+                    method = METHODS[mi]
+                    with lib(method):
+                        res = getattr(built[oi], method)(thetas[oi][ti].copy())
+                    nev += 1
+                    for (nm, got), (_, want) in zip(result_parts(method, res), alone[(oi, mi, ti)]):
+                        if same_bits(got, want):
+                            continue
+                        r = rel_difference(got, want)
+                        slack["interleave_rel_difference"] = max(slack.get("interleave_rel_difference", 0.0), (r / HIST_RTOL) if np.isfinite(r) else 0.0)
+                        if r > HIST_RTOL:
+                            add("interleave/%s/%s/%s/differs-from-the-object-alone" % (objs[oi]["style"], method, nm),
+                                "objects [%s] built %s; call %d of %s: %s on object %d returns a %s that differs from what the same object gives when nothing else is built or called: relative difference %.3g (allowed %g)"
+                                % (desc, order, pos + 1, [[o_, METHODS[m_]] for o_, m_ in seq], method, oi, nm, r, HIST_RTOL),
+                                objects=desc, order=order, calls=[[o_, METHODS[m_]] for o_, m_ in seq], observed=np.asarray(got).tolist(), expected=want.tolist())
+                if fails and len(seen) >= 6:
+                    break
+            if fails:
+                break
+        if fails:
+            break
+    tags.add("interleave,objects=[%s]" % desc)
+    for order in case["build_orders"]:
+        tags.add("interleave,n=%d,styles=%s,%s,len<=%d" % (nob, "+".join(o["style"] for o in objs), order, case["max_len"]))
+    return {"fails": fails, "n": nev, "tags": tags, "slack": slack, "sample": {"objects": desc, "histories": nseq, "calls": nev}}
+
+
+EVALUATORS = {"inverter": ev_inverter, "history": ev_history, "interleave": ev_interleave}
 
 
 def chunks(lst, k):
@@ -543,8 +665,41 @@ def run(ck):
                     for mode in MODES:
                         hist.append({"problem": prob, "kernel": kspec, "mean": mspec, "thetas": ths, "set": which, "mode": mode, "max_len": 3})
                         nhist += sum((len(METHODS) * len(ths)) ** k for k in (1, 2, 3))
+    # ---------------------------------------------------------------- several objects, interleaved
+    inter = []
+    ninter = 0
+
+    def styled(style, j, rot):
+        """object number j of a block: its own problem (size, dimension, positions and data all differ between the objects of a block)"""
+        shape = SHAPES[(rot + j) % 4] if j < 2 else SHAPES[(rot + 3) % 4]
+        d = 1 + (rot + j) % 2
+        prob = make_problem(shape, AKINDS[(rot + 2 * j) % 3], ("uniform", "mixed")[(rot + j) % 2], d, pk1[(rot + j) % 3], seed + 3 * j)
+        o = {"style": style, "problem": prob}
+        if style == "instances":
+            o["kernel"], o["mean"] = KERNELS[(rot + j) % len(KERNELS)], MEANS[(rot + 2 * j) % len(MEANS)]
+        k, m = style_spec(o)
+        r = (rot + j) % 3
+        o["thetas"] = [theta_at(k, m, prob, r, (r + 1) % 3, (r + 2) % 3, r), theta_at(k, m, prob, (r + 1) % 3, r, r, (r + 2) % 3)]
+        return o
+
+    pairs = list(itertools.product(STYLES, repeat=2))
+    for pi, (s0, s1) in enumerate(pairs):
+        rot = seed + pi
+        # quick: 4 calls for the pairs that involve an object built without kernel / mean arguments, 3 calls otherwise
+        ml = 4 if (not quick or "default" in (s0, s1)) else 3
+        for order in BUILD_ORDERS:
+            inter.append({"objects": [styled(s0, 0, rot), styled(s1, 1, rot)], "max_len": ml, "build_orders": [order]})
+            ninter += sum(8**k for k in range(1, ml + 1))
+    triples = [t for t in itertools.product(STYLES, repeat=3) if quick is False or (t.count("default") >= 2 or t in (("classes", "default", "instances"), ("cp-classes", "cp-classes", "default")))]
+    for ti, t in enumerate(triples):
+        rot = seed + ti
+        for order in BUILD_ORDERS:
+            inter.append({"objects": [styled(st, j, rot) for j, st in enumerate(t)], "max_len": 3, "build_orders": [order]})
+            ninter += sum(12**k for k in range(1, 4))
     cases.sort(key=lambda c: -len(c["thetas"][0]) * len(c["thetas"]) * c["problem"]["shape"][1] ** 2)
     ck.run_cases("inverter", cases, chunk=1)
+    inter.sort(key=lambda c: -((4 * len(c["objects"])) ** c["max_len"]))
+    ck.run_cases("interleave", inter, chunk=1)
     hist.sort(key=lambda c: -len(c["thetas"][0]) * c["problem"]["shape"][1] ** 2)
     ck.run_cases("history", hist, chunk=1)
     ck.rule = (
@@ -558,8 +713,15 @@ def run(ck):
         "{calculate_posterior, calculate_posterior_mean, marginal_likelihood, marginal_likelihood_gradient} x 3 vectors (12 + 144 + 1728 "
         "histories per block, a new inverter for each); after every call the result is compared bit-for-bit (else to 1e-12 relative) with a "
         "fresh inverter given a fresh copy of the vector; the three vectors of a block also go through the 50-digit oracle; distinct = "
-        "(configuration, caller convention, triple)"
+        "(configuration, caller convention, triple). interleave: two inverter objects, every ordered pair of construction styles {no kernel/mean argument, the "
+        "documented default classes passed explicitly, the caller's own instances (kernel and mean rotating), ChangePoint built from classes + a mean class} "
+        "(16 pairs; three objects: %d style triples), each object with its own problem (different size, dimension, positions, data, errors) and its own two "
+        "hyper-parameter vectors, objects {all built first, each built at its first use}: every sequence of <= 4 calls (object, method) (quick: <= 3 when "
+        "neither object is default-built; three objects: <= 3), the vector alternating with the position; every result compared bit-for-bit (else 1e-12) with "
+        "the same call on that object alone; default / class-built objects also against explicit SquaredExponential() / ConstantMean() instances; "
+        "distinct = (styles, sizes, build order)" % len(triples)
     )
+    ck.assume("interleaving: 2 or 3 live inverter objects, <= 4 calls (<= 3 for three objects), 2 hyper-parameter vectors per object; the caller gives each object its own kernel / mean instances")
     ck.assume("call histories are limited to 3 calls over 4 methods x 3 hyper-parameter vectors on one object; agreement with a fresh object is required bit-for-bit or to 1e-12 of the largest entry of the result")
     ck.assume("the user-defined mean function is the one written in checks/c17.py (exp(a) sin(b x_0 + c), stateless); other user classes are represented by it")
     ck.assume("continuous inputs are represented by the listed finite lattices; at most 5 parameters / 5 data (50-digit reference); points with cond(A K A^T + S) or cond(I + K A^T S^-1 A) > 1e10 are skipped and counted")
@@ -568,3 +730,5 @@ def run(ck):
     ck.extra["lattice_points"] = npoints
     ck.extra["history_blocks"] = len(hist)
     ck.extra["histories"] = nhist
+    ck.extra["interleave_blocks"] = len(inter)
+    ck.extra["interleave_histories"] = ninter
